@@ -1,56 +1,20 @@
 """usage: python3-vt tools/vacuity.py [FunctionKey ...]      (no key: every repository function under contract)
-Path-level vacuity audit.  Along one path the path condition only grows, so a path is audited through its LAST
-obligation with a goal that is not literally False: if that path condition is satisfiable nothing on the path was
-proved vacuously.  If it is unsatisfiable the first obligation with an unsat path condition is located and
-printed with the hypothesis that closes the path -- legitimate when the path is really dead (a callee that never
-returns normally, a branch excluded by an earlier fact), a bug of the engine or of a contract otherwise."""
+Path-level vacuity audit, see pyvc/audit.py."""
 import sys, os, multiprocessing
-sys.path.insert(0, '/verif'); sys.setrecursionlimit(10000)
-import z3
-from pyvc import driver, verify, registry as R
+sys.path.insert(0, os.path.join(os.path.dirname(os.path.abspath(__file__)), '..')); sys.setrecursionlimit(10000)
+from pyvc import driver, audit, registry as R
 driver.load_contracts()
 
 
-def feas(pc, to=6000):
-    s = z3.Solver(); s.set('timeout', to)
-    for p in pc: s.add(p)
-    return s.check()
-
-
-def audit(key):
-    out = []
+def run(key):
     try:
-        res = verify.verify_function(key, keep_terms=True, discharge=False)
+        closed, n, unk = audit.audit(key)
     except Exception as e:
         return ['%s: exploration failed %s' % (key, e)]
-    bypath = {}
-    for ob in res.raw or []:
-        if z3.is_false(ob.goal) or ob.status == 'trivial':
-            continue
-        bypath.setdefault(ob.path, []).append(ob)
-    nvac = nunk = 0
-    for path, obs in bypath.items():
-        r = feas(obs[-1].pc)
-        if r == z3.sat:
-            continue
-        if r == z3.unknown:
-            nunk += 1
-            continue
-        lo, hi = 0, len(obs) - 1
-        while lo < hi:
-            mid = (lo + hi) // 2
-            if feas(obs[mid].pc) == z3.unsat: hi = mid
-            else: lo = mid + 1
-        ob = obs[lo]
-        a, b = 0, len(ob.pc)
-        while a < b:
-            mid = (a + b) // 2
-            if feas(ob.pc[:mid + 1]) == z3.unsat: b = mid
-            else: a = mid + 1
-        nvac += 1
-        out.append('VACUOUS %s %s line %s path %s: pc[%d] closes it: %s'
-                   % (key, ob.label, ob.lineno, path, a, str(ob.pc[a])[:300].replace('\n', ' ')))
-    out.append('%s: %d paths audited, %d closed, %d undetermined (solver unknown)' % (key, len(bypath), nvac, nunk))
+    allow = audit.load_allow()
+    out = ['VACUOUS%s %s %s line %s: closed by %s' % (' (allowed)' if audit.allowed(allow, k, l) else '', k, l, ln, h)
+           for (k, l, ln, h) in closed]
+    out.append('%s: %d paths audited, %d closed, %d undetermined (solver unknown)' % (key, n, len(closed), unk))
     return out
 
 
@@ -58,6 +22,6 @@ if __name__ == '__main__':
     keys = sys.argv[1:] or [k for k, c in R.CONTRACTS.items() if c.kind == 'repo' and c.verify]
     ctx = multiprocessing.get_context('fork')
     with ctx.Pool(14) as pool:
-        for lines in pool.imap_unordered(audit, keys, chunksize=1):
+        for lines in pool.imap_unordered(run, keys, chunksize=1):
             print('\n'.join(lines)); sys.stdout.flush()
     os._exit(0)
